@@ -1,7 +1,7 @@
 (* Entry points of the executable model, by name.  Used both by the extracted
    OCaml driver and by vm_compute in generated cases files. *)
 From Coq Require Import ZArith QArith List String Bool.
-From SKC Require Import Model.Val Base.QBool Base.QList Base.QRank Model.Dominance Model.Agg Model.Electre Model.Result.
+From SKC Require Import Model.Val Base.QBool Base.QList Base.QRank Model.Dominance Model.Agg Model.Electre Model.Result Model.Select.
 Import ListNotations.
 Local Open Scope string_scope.
 
@@ -97,10 +97,46 @@ Definition run_electre2_rank (a : list (list bool) * list (list bool)) : val :=
   | None => VE E_FUEL
   end.
 
+(* ---- C01: selection chains -------------------------------------------------------- *)
+Definition dSel (v : val) : option sel :=
+  match v with
+  | VL [VZ 0] => Some SAll
+  | VL [VZ 1; ls] => option_map SLabels (dL dZ ls)
+  | VL [VZ 2; VZ a; VZ b; VB r] => Some (SLabelSlice a b r)
+  | VL [VZ 3; ps] => option_map SPosList (dL dN ps)
+  | VL [VZ 4; VZ a; VZ b; VZ st] => Some (SPosRange a b st)
+  | VL [VZ 5; bs] => option_map SMask (dL dB bs)
+  | _ => None
+  end%Z.
+Definition dOp (v : val) : option op :=
+  match v with
+  | VL [VZ 0; r; c] => match dSel r, dSel c with Some x, Some y => Some (OSel x y) | _, _ => None end
+  | VL [VZ 1] => Some OCopy
+  | VL [VZ 2] => Some ORoundTrip
+  | _ => None
+  end%Z.
+Definition dDmx (v : val) : option dmx :=
+  match v with
+  | VL [a; c; m; o; w; t] =>
+      match dL dZ a, dL dZ c, dMatrix m, dL dB o, dL dQ w, dL dZ t with
+      | Some a', Some c', Some m', Some o', Some w', Some t' =>
+          Some {| alts := a'; crits := c'; cells := m'; objs := o'; wts := w'; dts := t' |}
+      | _, _, _, _, _, _ => None
+      end
+  | _ => None
+  end.
+Definition eDmx (d : dmx) : val :=
+  VL [eL eZ (alts d); eL eZ (crits d); eTable eQ (cells d); eL eB (objs d); eL eQ (wts d); eL eZ (dts d)].
+Definition run_select (a : dmx * list op) : val :=
+  eRes eDmx (run_ops (snd a) (fst a)).
+Definition run_alias (c : Z) : val := eO eB (alias_sense c).
+
 Definition dispatch (fn : string) (arg : val) : val :=
   if fn =? "dominance" then with_arg (dP2 (dL dB) dMatrix) run_dominance arg
   else if fn =? "rank" then with_arg (dP2 dB (dL dQ)) run_rank arg
   else if fn =? "validate_rank" then with_arg (dL dZ) (fun vs => eB (validate_rank vs)) arg
+  else if fn =? "select" then with_arg (dP2 dDmx (dL dOp)) run_select arg
+  else if fn =? "alias" then with_arg dZ run_alias arg
   else if fn =? "wsm" then with_arg dDM run_wsm arg
   else if fn =? "ratio" then with_arg dDM run_ratio arg
   else if fn =? "refpoint" then with_arg dDM run_refpoint arg
